@@ -14,7 +14,7 @@
 From Coq Require Import ZArith List Bool.
 From PCB Require Import lib.Result lib.PyInt lib.Harness lib.MBFPrims gen.Gen_mbf gen.Gen_dec model.MBF
   model.Decimal proofs.MBF_base proofs.Decimal_den proofs.Decimal_todec proofs.Decimal_print
-  proofs.Decimal_parse proofs.Decimal_back proofs.Decimal_accum proofs.Decimal_proofs.
+  proofs.Decimal_parse proofs.Decimal_back proofs.Decimal_list proofs.Decimal_accum proofs.Decimal_proofs.
 Import ListNotations.
 Open Scope Z_scope.
 
@@ -52,6 +52,21 @@ Proof.
   split; [|split; assumption]. rewrite (to_str_int F b n true false HF Hb Hv Hn0 Hn), app_nil_r. reflexivity.
 Qed.
 Print Assumptions C07_int_roundtrip.
+
+(* LIST: every integer constant token of a stored program - the one-byte constants 11h..1Bh (0..10), 0F nn,
+   1C nnnn, whatever wrote the token stream - is listed (Lister._detokenise_number, model list_number) as
+   exactly [-] + the decimal digits of the integer the running program uses (token_int), and that text
+   re-enters as the same value *)
+Theorem C07_list_int_const : forall lead trail n hard allow, bytes_ok trail -> zlen trail <= 2 ->
+  token_int lead trail = Some n ->
+  exists s v, list_number lead trail = Ok s /\ s = sign_str (n <? 0) false ++ dec_str (Z.abs n) /\
+              from_repr hard s allow = Ok v /\ value_scaled v = n * 2 ^ 184.
+Proof. exact list_int_const_roundtrip. Qed.
+Print Assumptions C07_list_int_const.
+
+Theorem C07_list_one_byte_constants : forall k, 0 <= k <= 10 -> list_number (17 + k) [] = Ok (dec_str k).
+Proof. exact list_one_byte_constants. Qed.
+Print Assumptions C07_list_one_byte_constants.
 
 (* ================================================================================================ *)
 (* CLAUSE 2 - at most 7 / 16 significant digits                                                     *)
